@@ -162,7 +162,15 @@ pub enum Policy {
     OpGranular { p: u32 },
     /// F9: freeze `victim` at its `at`-th preemptible site hit inside an operation
     /// until every other thread has finished; others run under Random{p}.
-    Stall { victim: usize, at: u32, p: u32 },
+    Stall {
+        victim: usize,
+        at: u32,
+        p: u32,
+        /// Release the victim after this many operation boundaries of other threads
+        /// (0 = only when every other thread has finished).
+        #[serde(default)]
+        release: u32,
+    },
 }
 
 /// F2: unwind thread `thread` at the `step`-th hook hit inside sub-call `poll` of its
